@@ -1,11 +1,13 @@
 \* trace mode: the sorted pair orders recorded from the real unitcell.filter_pairs ($TRACE_FILE) are
 \* validated and the block machine is run on them, with both block-end variants; a line stands for the scales (ks)
-\* of the cell at which exactly this order was recorded; an invalid order ends in "badtrace" (EmitBad)
+\* of the cell at which exactly this order was recorded; an invalid order ends in "badtrace" (EmitBad).
+\* NRC = 8: the ring table of the cells (the harness records the ring pairs of the first NR rings and the near-cut ones)
 SPECIFICATION Spec
 CONSTANTS
   MODE = "trace"
   Cells <- Cells_t
   NR = 4
+  NRC = 8
   PairSel = "all"
   TieRules = {"fwd"}
   BugEnds = {TRUE, FALSE}
